@@ -189,6 +189,8 @@ def run(ctx):
         ctx.check(dep == own, "C14.4", "Hosts::serialise:independent:%s" % fam, "the %s line is written iff the %s lookup hit - whatever the other family holds" % (fam, fam),
                   "whether the %s line is written depends on the lookups in %s (a name with both families loses one mapping)" % (fam, sorted(dep)), hs.loc(b))
     ctx.check(seen_f == {"v4", "v6"}, "C14.4", "Hosts::serialise:both-families", "a line for v4 and a line for v6", "lines written for %s" % sorted(seen_f), hs.loc())
+    ee = A.early_loop_exits(hs, hsc)
+    ctx.check(not ee, "C14.4", "Hosts::serialise:no-early-exit", "the name loop ends only when every name was written", "the name loop of Hosts::serialise can be left early: %s" % [hs.loc(a) for h, a, s_ in ee], hs.loc())
     pops = A.call_blocks(hs, A.name_endswith("String::pop"))
     roots = A.call_blocks(hs, A.name_is(T + "DomainName::is_root"))
     ctx.check(len(pops) == 1 and len(roots) == 1, "C14.4", "Hosts::serialise:name-form", "name printed without the trailing dot, the root as '.'",
